@@ -22,6 +22,16 @@
 (*   {"ev":"Rename","s":N,"d":N}          rename* returned 0               *)
 (*   {"ev":"Fin","m":M}                   write(2) of "FIN <id>" to the    *)
 (*                                        nsqd socket was ENTERED          *)
+(*   {"ev":"Settled","m":[..]}            after the stop: the messages     *)
+(*                                        nsqd no longer owes (everything  *)
+(*                                        published minus what a drain     *)
+(*                                        consumer still received) -- the  *)
+(*                                        black-box view of `fin`          *)
+(*   {"ev":"PowerLoss"}                   the worst case FileLoggerAbs     *)
+(*                                        allows at that instant: every    *)
+(*                                        file cut back to its fsynced     *)
+(*                                        prefix; the invariants are then  *)
+(*                                        evaluated on what is left        *)
 (* Names are small integers per path, inodes are numbered in order of      *)
 (* Pre/Create (as NewIno does), messages 1..n in order of publication.     *)
 (* File events are logged when the syscall has RETURNED, Fin when the      *)
@@ -58,8 +68,16 @@ TLink   == IsEvent("Link")   /\ FsLink(Trace[l].s, Trace[l].d)
 TUnlink == IsEvent("Unlink") /\ FsUnlink(Trace[l].n)
 TRename == IsEvent("Rename") /\ FsRename(Trace[l].s, Trace[l].d)
 TFin    == IsEvent("Fin")    /\ Fin(Trace[l].m)
+TSettled == /\ IsEvent("Settled")
+            /\ fin' = fin \cup Range(Trace[l].m)
+            /\ UNCHANGED <<dir, data, dur, epoch>>
+\* PowerLoss of FileLoggerAbs with the least it may leave (cut = dur)
+TPowerLoss == /\ IsEvent("PowerLoss")
+              /\ data' = [i \in DOMAIN data |-> SubSeq(data[i], 1, dur[i])]
+              /\ epoch' = epoch + 1
+              /\ UNCHANGED <<dir, dur, fin>>
 
-TraceNext == TReset \/ TPre \/ TCreate \/ TAppend \/ TRewrite \/ TFsync \/ TLink \/ TUnlink \/ TRename \/ TFin
+TraceNext == TReset \/ TPre \/ TCreate \/ TAppend \/ TRewrite \/ TFsync \/ TLink \/ TUnlink \/ TRename \/ TFin \/ TSettled \/ TPowerLoss
 TraceSpec == TraceInit /\ [][TraceNext]_tvars
 
 HW == IF l > TLCGet(1) THEN TLCSet(1, l) /\ TLCSet(2, [dir |-> dir, dur |-> dur, fin |-> fin]) ELSE TRUE
